@@ -736,6 +736,60 @@ theorem construct_coms (dflt : E) (qs : List (Query C P E))
 
 end assembly
 
+section used
+variable {C P E : Type} [DecidableEq C] [DecidableEq P]
+
+theorem eq_of_nodup_map_fst {β : Type} (cm : List (C × β)) (h : (cm.map (·.1)).Nodup)
+    (e e' : C × β) (he : e ∈ cm) (he' : e' ∈ cm) (h1 : e.1 = e'.1) : e = e' :=
+  List.inj_on_of_nodup_map h he he' h1
+
+/-- Every point set of the result is the set of some commitment of the result, and the
+commitments of the result are pairwise different. -/
+theorem construct_set_used (dflt : E) (qs : List (Query C P E))
+    (cm' : List (CommitmentData C E)) (psets : List (List P))
+    (h : constructIntermediateSets dflt qs = some (cm', psets)) :
+    (cm'.map (·.com)).Nodup ∧ ∀ i, i < psets.length → ∃ d ∈ cm', d.setIndex = i := by
+  refine ⟨by rw [construct_coms dflt qs cm' psets h]; exact firstOcc_nodup _, ?_⟩
+  intro i hi
+  unfold constructIntermediateSets at h
+  rw [phase1_eq] at h
+  cases hadd : addAll (pairsOf qs (ptsF qs [])) [] with
+  | none => rw [hadd] at h; simp at h
+  | some cm =>
+    rw [hadd] at h
+    simp only [Option.map_some, Option.some.injEq, Prod.mk.injEq] at h
+    obtain ⟨hcm', hpsets⟩ := h
+    obtain ⟨-, hinv⟩ := addAll_spec (pairsOf qs (ptsF qs [])) [] [] inv_nil List.nodup_nil
+    obtain ⟨hkeys, hent⟩ : Inv cm (pairsOf qs (ptsF qs [])) := by simpa using hinv cm hadd
+    have hi' : i < (phase2 cm).length := by rw [← hpsets] at hi; simpa using hi
+    obtain ⟨e, he, hey⟩ := (mem_phase2 cm _).1 (List.getElem_mem hi')
+    have hknd : (cm.map (·.1)).Nodup := by rw [hkeys]; exact firstOcc_nodup _
+    have hcin : e.1 ∈ (pairsOf qs (ptsF qs [])).map (·.1) := by
+      rw [← mem_firstOcc, ← hkeys]; exact List.mem_map_of_mem he
+    obtain ⟨pr, hpr, hpc⟩ := List.mem_map.1 hcin
+    obtain ⟨q, hq, rfl⟩ := List.mem_map.1 (by simpa [pairsOf] using hpr : pr ∈ qs.map (fun q => (q.com, (ptsF qs []).idxOf q.point)))
+    have hentry := hent e.1
+    rw [if_pos hcin] at hentry
+    have hein := entry_find cm e.1 _ hentry
+    have heq : e = (e.1, ((pairsOf qs (ptsF qs [])).filter (fun p => p.1 = e.1)).map (·.2)) :=
+      eq_of_nodup_map_fst cm hknd _ _ he hein rfl
+    have hset : setOf cm e.1 = btreeSet e.2 := by
+      rw [setOf_eq, hentry]; simp only [Option.getD_some]
+      have := congrArg Prod.snd heq
+      simp only at this
+      rw [← this]
+    obtain ⟨f1, f2, f3, f4⟩ := foldl_updOne (ptsF qs []) cm (phase2 cm) qs
+      ({ com := e.1, setIndex := 0, pointIndices := e.2, evals := List.replicate e.2.length dflt } : CommitmentData C E)
+    refine ⟨qs.foldl (updOne (ptsF qs []) cm (phase2 cm))
+      ({ com := e.1, setIndex := 0, pointIndices := e.2, evals := List.replicate e.2.length dflt } : CommitmentData C E), ?_, ?_⟩
+    · rw [← hcm', foldl_placeEval, List.map_map]
+      exact List.mem_map.2 ⟨e, he, rfl⟩
+    · rw [f4 ⟨q, hq, by simpa using hpc⟩]
+      simp only [hset, hey]
+      exact (phase2_nodup cm).idxOf_getElem i hi'
+
+end used
+
 section relabel
 variable {C C' P E E' : Type} [DecidableEq C] [DecidableEq C'] [DecidableEq P]
 
